@@ -212,8 +212,10 @@ func VerifC18(program int, files int, mode int, twin int) {
 	if !okW {
 		vFail("harness: library JSON does not parse")
 	}
+	c18BaseNames(want)
 	if useJSON || useFJSON {
 		doc, ok := jparse(stdout)
+		c18BaseNames(doc)
 		if !ok {
 			vFail("standard output under -json/-formatted-json is not exactly one JSON document")
 		}
@@ -224,6 +226,7 @@ func VerifC18(program int, files int, mode int, twin int) {
 	if jsonFile {
 		txt, has := vfsRead("out.json")
 		doc, ok := jparse(txt)
+		c18BaseNames(doc)
 		if !has || !ok || !jequal(doc, want) {
 			vNote("out.json", txt)
 			vNote("library", expected.Json())
@@ -233,6 +236,7 @@ func VerifC18(program int, files int, mode int, twin int) {
 	if fjsonFile {
 		txt, has := vfsRead("outf.json")
 		doc, ok := jparse(txt)
+		c18BaseNames(doc)
 		if !has || !ok || !jequal(doc, want) {
 			vFail("-formatted-json-file does not contain exactly the library's result as JSON")
 		}
@@ -246,4 +250,30 @@ func c18Text(label string, minLen int, maxLen int) string {
 		b[i] = vByte(label)
 	}
 	return string(b)
+}
+
+// c18BaseNames: the tool spells a file the way its own directory walk found it (an absolute path on a real
+// system), the library call of the harness spells it "./name": the same file. File names are compared by
+// their last path element.
+func c18BaseNames(doc *jv) {
+	if doc == nil || doc.kind != 4 {
+		return
+	}
+	for _, m := range doc.arr {
+		if m == nil || m.kind != 5 {
+			continue
+		}
+		for i, k := range m.keys {
+			if k == "filename" && m.vals[i] != nil && m.vals[i].kind == 3 {
+				name := m.vals[i].s
+				for j := len(name) - 1; j >= 0; j-- {
+					if name[j] == '/' {
+						name = name[j+1:]
+						break
+					}
+				}
+				m.vals[i].s = name
+			}
+		}
+	}
 }
